@@ -8,15 +8,17 @@ open H2.Gen H2.Conn
   `_prepare_for_sending` and every frame handler preserve (whether they return or raise), `receive_data` preserves it
   for every byte string. -/
 
-structure Stable (P : Conn → Prop) : Prop where
+structure StableB (P : Conn → Prop) : Prop where
   fb : ∀ c fb, P c → P { c with fb := fb }
   connInput : ∀ i c, P c → wp (connInput i) (fun _ c' => P c') (fun _ c' => P c') c
   prepare : ∀ fs c, P c → wp (prepareForSending fs) (fun _ c' => P c') (fun _ c' => P c') c
+
+structure Stable (P : Conn → Prop) : Prop extends StableB P where
   dispatch : ∀ rf c, P c → wp (dispatch rf) (fun _ c' => P c') (fun _ c' => P c') c
 
 variable {P : Conn → Prop}
 
-theorem stable_frameErrorHandler (hP : Stable P) (e : Exc) (c : Conn) (h : P c) :
+theorem stable_frameErrorHandler (hP : StableB P) (e : Exc) (c : Conn) (h : P c) :
     wp (frameErrorHandler e) (fun _ c' => P c') (fun _ c' => P c') c := by
   unfold frameErrorHandler
   cases e with
@@ -48,11 +50,12 @@ theorem stable_frameErrorHandler (hP : Stable P) (e : Exc) (c : Conn) (h : P c) 
         exact this
       · split <;> exact h
 
-theorem stable_receiveFrame (hP : Stable P) (rf : RFrame) (c : Conn) (h : P c) :
+theorem stableB_receiveFrame (hP : StableB P) (rf : RFrame) (c : Conn) (h : P c)
+    (hd : wp (dispatch rf) (fun _ c' => P c') (fun _ c' => P c') c) :
     wp (receiveFrame rf) (fun _ c' => P c') (fun _ c' => P c') c := by
   unfold receiveFrame
   wps
-  refine wp_mono (hP.dispatch rf c h) ?_ ?_
+  refine wp_mono hd ?_ ?_
   · intro fe c1 h1
     obtain ⟨frames, events⟩ := fe
     wps
@@ -65,7 +68,11 @@ theorem stable_receiveFrame (hP : Stable P) (rf : RFrame) (c : Conn) (h : P c) :
       intro evs c2 h2; wps; exact h2
     · exact h1
 
-theorem stable_hideFb {α : Type} (hP : Stable P) (m : CM α) (c : Conn) (h : P c)
+theorem stable_receiveFrame (hP : Stable P) (rf : RFrame) (c : Conn) (h : P c) :
+    wp (receiveFrame rf) (fun _ c' => P c') (fun _ c' => P c') c :=
+  stableB_receiveFrame hP.toStableB rf c h (hP.dispatch rf c h)
+
+theorem stable_hideFb {α : Type} (hP : StableB P) (m : CM α) (c : Conn) (h : P c)
     (hm : ∀ c, P c → wp m (fun _ c' => P c') (fun _ c' => P c') c) : P (hideFb m c).2 := by
   unfold hideFb
   have := hm { c with fb := {} } (hP.fb c {} h)
@@ -92,7 +99,7 @@ theorem stable_recvLoop (hP : Stable P) (fuel : Nat) (evs : List Event) (c : Con
         | none => exact hP.fb c fb h
         | some rf =>
           simp only
-          have h1 := stable_hideFb hP (receiveFrame rf) { c with fb := fb } (hP.fb c fb h) (stable_receiveFrame hP rf)
+          have h1 := stable_hideFb hP.toStableB (receiveFrame rf) { c with fb := fb } (hP.fb c fb h) (stable_receiveFrame hP rf)
           cases hm : hideFb (receiveFrame rf) { c with fb := fb } with
           | mk r2 c2 =>
             rw [hm] at h1
@@ -100,7 +107,7 @@ theorem stable_recvLoop (hP : Stable P) (fuel : Nat) (evs : List Event) (c : Con
             | error e => exact h1
             | ok es => exact ih _ _ (hP.fb c2 _ h1)
 
-theorem stable_terminate (hP : Stable P) (code : Int) (c : Conn) (h : P c) :
+theorem stable_terminate (hP : StableB P) (code : Int) (c : Conn) (h : P c) :
     wp (terminateConnection code) (fun _ c' => P c') (fun _ c' => P c') c := by
   unfold terminateConnection
   wps
@@ -108,7 +115,7 @@ theorem stable_terminate (hP : Stable P) (code : Int) (c : Conn) (h : P c) :
   intro _ c1 h1
   exact hP.prepare _ c1 h1
 
-theorem stable_handleRecvError (hP : Stable P) (e : Exc) (c : Conn) (h : P c) :
+theorem stable_handleRecvError (hP : StableB P) (e : Exc) (c : Conn) (h : P c) :
     wp (handleRecvError e) (fun _ c' => P c') (fun _ c' => P c') c := by
   unfold handleRecvError
   split
@@ -138,6 +145,75 @@ theorem stable_receiveData (hP : Stable P) (d : Bytes) (c : Conn) (h : P c) : P 
       rw [hl] at h1
       cases r with
       | ok evs => exact h1
-      | error e => exact stable_hideFb hP (handleRecvError e) c1 h1 (stable_handleRecvError hP e)
+      | error e => exact stable_hideFb hP.toStableB (handleRecvError e) c1 h1 (stable_handleRecvError hP.toStableB e)
+
+/-! ### the same for predicates that need the frames to be what the parser yields
+
+  A predicate like "the connection's outbound window is not negative" is not kept by the WINDOW_UPDATE handler for an
+  arbitrary increment — only for the increments hyperframe lets through (`RFrameOk`: at least 1).  `StableV` asks the
+  dispatcher to keep the predicate for such frames only; `receive_data` then keeps it for every byte string, because
+  every frame the frame buffer yields is such a frame (`next_ok`; that needs the header-block backlog to be well
+  formed, which `C17.Inv` says). -/
+
+structure StableV (P : Conn → Prop) : Prop extends StableB P where
+  dispatch : ∀ rf c, RFrameOk rf → P c → wp (dispatch rf) (fun _ c' => P c') (fun _ c' => P c') c
+
+theorem Stable.toV (hP : Stable P) : StableV P := { hP.toStableB with dispatch := fun rf c _ h => hP.dispatch rf c h }
+
+theorem stableV_recvLoop (hP : StableV P) (fuel : Nat) (evs : List Event) (c : Conn) (h : P c)
+    (hh : HbOk c.fb.headersBuffer) : P (recvLoop fuel evs c).2 := by
+  induction fuel generalizing evs c with
+  | zero => exact h
+  | succ n ih =>
+    rw [recvLoop_succ]
+    have hn := next_ok (c.fb.data.length + 1) c.fb hh
+    cases hnx : FrameBuffer.next (c.fb.data.length + 1) c.fb with
+    | mk r fb =>
+      rw [hnx] at hn
+      cases r with
+      | error e => exact hP.fb c fb h
+      | ok o =>
+        cases o with
+        | none => exact hP.fb c fb h
+        | some rf =>
+          simp only
+          have hrf := hn.1 rf fb rfl
+          have h1 := stable_hideFb hP.toStableB (receiveFrame rf) { c with fb := fb } (hP.fb c fb h)
+            (fun c' h' => stableB_receiveFrame hP.toStableB rf c' h' (hP.dispatch rf c' hrf h'))
+          have hfb := hideFb_fb (receiveFrame rf) { c with fb := fb }
+          cases hm : hideFb (receiveFrame rf) { c with fb := fb } with
+          | mk r2 c2 =>
+            rw [hm] at h1 hfb
+            cases r2 with
+            | error e => exact h1
+            | ok es =>
+              refine ih _ _ (hP.fb c2 _ h1) ?_
+              show HbOk c2.fb.headersBuffer
+              simp only at hfb
+              rw [hfb]; exact hn.2.2
+
+/-- **`receive_data` preserves every predicate that is stable for parsed frames**, for every byte string -/
+theorem stableV_receiveData (hP : StableV P) (d : Bytes) (c : Conn) (h : P c) (hh : HbOk c.fb.headersBuffer) :
+    P (receiveData d c).2 := by
+  unfold receiveData
+  cases ha : FrameBuffer.addData c.fb d with
+  | error e => exact h
+  | ok fb =>
+    simp only
+    have hhb : fb.headersBuffer = c.fb.headersBuffer := by
+      rw [FrameBuffer.addData_eq] at ha
+      split at ha
+      · injection ha with ha; subst ha; rfl
+      · split at ha
+        · injection ha with ha; subst ha; rfl
+        · simp at ha
+    have h0 := hP.fb c { fb with maxFrameSize := c.maxInFrame } h
+    have h1 := stableV_recvLoop hP (fb.data.length + 1) [] _ h0 (by show HbOk fb.headersBuffer; rw [hhb]; exact hh)
+    cases hl : recvLoop (fb.data.length + 1) [] { c with fb := { fb with maxFrameSize := c.maxInFrame } } with
+    | mk r c1 =>
+      rw [hl] at h1
+      cases r with
+      | ok evs => exact h1
+      | error e => exact stable_hideFb hP.toStableB (handleRecvError e) c1 h1 (stable_handleRecvError hP.toStableB e)
 
 end H2
